@@ -21,11 +21,13 @@ class LRU {
 }
 
 let currentTable = {}
+let lastNativeConfig
 class FakeNative {
-  constructor (config) { this.config = config }
+  constructor (config) { this.config = config; lastNativeConfig = JSON.stringify(config) }
   rewrite (code, file) {
     const key = code + '\u0000' + file
-    const r = currentTable[key]
+    // bulk files (op "bulk") all carry the text of a known version: the answer for /one.js serves
+    const r = currentTable[key] || (file.startsWith('/w/bulk/') ? currentTable[code + '\u0000/one.js'] : undefined)
     if (!r) throw new Error('HARNESS: no precomputed native result for ' + key.slice(0, 80))
     if (r.error !== undefined && r.error !== null) throw new Error(r.error)
     return JSON.parse(JSON.stringify({ content: r.content, metrics: r.metrics, literalsResult: r.literals }))
@@ -76,7 +78,11 @@ function runJob (job) {
   currentTable = job.table
   const pkg = loadPackage(job.repo)
   const events = []
+  // another instance with other options comes first: nothing of it may reach the instance under test
+  const decoy = new pkg.Rewriter(Object.assign({}, job.config, { comments: !job.config.comments, telemetryVerbosity: 'OFF', literals: false, localVarPrefix: 'zz', chainSourceMap: false }))
+  void decoy
   const rewriter = new pkg.Rewriter(job.config)
+  events.push({ op: 'new', file: '', version: '', threw: false, cfg_same: lastNativeConfig === JSON.stringify(job.config), cfg_got: String(lastNativeConfig).slice(0, 300) })
   const inUse = {}   // file -> text returned by the last successful rewrite
   for (const step of job.steps) {
     const ev = { op: step.op, file: step.file, version: step.version || '', threw: false }
@@ -155,6 +161,9 @@ function runJob (job) {
           }
           for (const g of got) ev.frames.push(Object.assign({ mode }, g || {}))
         }
+      } else if (step.op === 'bulk') {
+        // many other files are rewritten in between: the maps of the files in use must survive
+        for (let i = 0; i < step.n; i++) rewriter.rewrite(job.texts[step.version], '/w/bulk/f' + i + '.js')
       } else if (step.op === 'probe') {
         // arbitrary positions of a file, translated through the public stack-trace API with fake call sites
         const sites = step.positions.map(([l, c]) => ({
